@@ -35,6 +35,84 @@ func runC20(r *Run) {
 			c20Generate(r, h, opt&1 == 1, opt&2 == 2)
 		}
 	}
+	for h := 0; h < 4*n; h++ {
+		c20Deterministic(r, h)
+	}
+}
+
+// c20Deterministic: "identical from run to run" on schemas with many tables and columns (the generator walks
+// Go maps: tables, columns, enum values): every file is formatted six times and must come out the same.
+func c20Deterministic(r *Run, h int) {
+	rng := r.Rng
+	all := c20Columns()
+	tableNames := []string{"Logical_Switch_Port", "Bridge", "ACL", "NAT_rule", "T", "dns_record", "QoS", "Port_Binding", "sb_global"}
+	colNames := []string{"external_ids", "other_config", "ip", "mac_addr", "vlan_mode", "name", "dns_name", "uuid_ref", "acl-priority", "c", "stp_enable", "ipfix", "n"}
+	tables := map[string]interface{}{}
+	for _, tn := range tableNames[:5+rng.Intn(5)] {
+		cols := map[string]interface{}{}
+		rng.Shuffle(len(colNames), func(a, b int) { colNames[a], colNames[b] = colNames[b], colNames[a] })
+		for j := 0; j < 6+rng.Intn(7); j++ {
+			cols[colNames[j]] = map[string]interface{}{"type": all[rng.Intn(len(all))].json}
+		}
+		tables[tn] = map[string]interface{}{"columns": cols, "isRoot": true}
+	}
+	sb, _ := json.Marshal(map[string]interface{}{"name": "db", "version": "1.0.0", "tables": tables})
+	enumTypes, extended := h&1 == 1, h&2 == 2
+	cs := map[string]interface{}{"schema": string(sb), "enumTypes": enumTypes, "extended": extended}
+	r.Case("deterministic", fmt.Sprintf("%s|%v|%v", sb, enumTypes, extended))
+	var schema ovsdb.DatabaseSchema
+	if err := json.Unmarshal(sb, &schema); err != nil {
+		r.Violation("deterministic", cs, err.Error(), "", true, "a valid schema is rejected", "")
+		return
+	}
+	gen, err := modelgen.NewGenerator()
+	if err != nil {
+		return
+	}
+	files := map[string][]byte{}
+	for pass := 0; pass < 6; pass++ {
+		var bad string
+		func() {
+			defer func() {
+				if p := recover(); p != nil {
+					bad = fmt.Sprint("panic: ", p)
+				}
+			}()
+			// a fresh decode per pass, as a fresh run of the tool has
+			var sc ovsdb.DatabaseSchema
+			_ = json.Unmarshal(sb, &sc)
+			out := map[string][]byte{}
+			for name, table := range sc.Tables {
+				tt := table
+				data := modelgen.GetTableTemplateData("gen", name, &tt)
+				data.WithEnumTypes(enumTypes)
+				data.WithExtendedGen(extended)
+				src, err := gen.Format(modelgen.NewTableTemplate(), data)
+				if err != nil {
+					bad = fmt.Sprintf("table %s: %v", name, err)
+					return
+				}
+				out[modelgen.FileName(name)] = src
+			}
+			src, err := gen.Format(modelgen.NewDBTemplate(), modelgen.GetDBTemplateData("gen", sc))
+			if err != nil {
+				bad = "db model: " + err.Error()
+				return
+			}
+			out["model.go"] = src
+			for fn, b := range out {
+				if pass > 0 && !bytes.Equal(files[fn], b) {
+					bad = "NONDETERMINISTIC " + fn
+					return
+				}
+				files[fn] = b
+			}
+		}()
+		if bad != "" {
+			r.Violation("deterministic", cs, bad, "identical output", true, "runs of the generator on the same schema give different files (or the generator fails)", "")
+			return
+		}
+	}
 }
 
 type c20Col struct {
